@@ -30,7 +30,8 @@ import (
 //     join         wait (at most 300 ms each) for the background reloads
 //     hold:<n>     the VM that starts line <n> stops at the start of ProcessLogLine until released
 //     rel:<n>      release line <n>
-//     reload       LoadAllPrograms in the background; observed after 150 ms as returned / blocked
+//     reload       LoadAllPrograms in the background; observed as returned, or as blocked once it waits
+//                  for the VM that is inside a held line
 //     wait:<k>     wait (at most 300 ms) until k lines have been fully processed
 //     sync         wait until every line sent so far has been fully processed
 //
@@ -40,18 +41,20 @@ import (
 // instance, n equals the number of lines, g is the last line sent.
 
 type c20Env struct {
-	dir     string
-	lines   chan *logline.LogLine
-	rt      *runtime.Runtime
-	store   *metrics.Store
-	wg      sync.WaitGroup
-	mu      sync.Mutex
-	inst    map[*vm.VM]int
-	log     []string
-	holds   map[string]chan struct{}
-	entered map[string]chan struct{}
-	sent    int
-	bg      []chan struct{}
+	dir      string
+	lines    chan *logline.LogLine
+	rt       *runtime.Runtime
+	store    *metrics.Store
+	wg       sync.WaitGroup
+	mu       sync.Mutex
+	inst     map[*vm.VM]int
+	log      []string
+	holds    map[string]chan struct{}
+	entered  map[string]chan struct{}
+	sent     int
+	fanned   int   // lines sent while nothing was loaded
+	lineBase int64 // lines_total when the case began
+	bg       []chan struct{}
 }
 
 func c20Prog(k int) string {
@@ -75,6 +78,22 @@ func (e *c20Env) hook(v *vm.VM, l *logline.LogLine) {
 	if h != nil {
 		<-h
 	}
+}
+
+// anyHeldEntered: some VM is inside a line the schedule is holding.
+func (e *c20Env) anyHeldEntered() bool {
+	e.mu.Lock()
+	defer e.mu.Unlock()
+	for l := range e.holds {
+		if ent := e.entered[l]; ent != nil {
+			select {
+			case <-ent:
+				return true
+			default:
+			}
+		}
+	}
+	return false
 }
 
 func (e *c20Env) intMetric(name string) (int64, bool) {
@@ -106,6 +125,7 @@ func c20Run(r *runCtx, id string, f []string) {
 		panic(err)
 	}
 	e.rt = rt
+	e.lineBase = runtime.LineCount.Value()
 	var obs []string
 	lastSent := ""
 	fileThere, loaded := false, false
@@ -139,10 +159,15 @@ func c20Run(r *runCtx, id string, f []string) {
 				close(h)
 			}
 		case "join":
+			// reloads that can finish are awaited; with a line held they cannot, and are left pending
+			jd := 20 * time.Second
+			if e.anyHeldEntered() {
+				jd = 300 * time.Millisecond
+			}
 			for _, ch := range e.bg {
 				select {
 				case <-ch:
-				case <-time.After(300 * time.Millisecond):
+				case <-time.After(jd):
 				}
 			}
 		case "l", "lq":
@@ -172,6 +197,19 @@ func c20Run(r *runCtx, id string, f []string) {
 				obs = append(obs, "send-blocked:"+kv[1])
 				stuck = true
 			}
+			if !stuck && !loaded {
+				// nothing is loaded, so no VM will report this line: wait until the loader has counted
+				// it and finished handing it out before anything else happens (otherwise a program
+				// loaded right afterwards may still receive it, which the schedule does not mean)
+				e.fanned++
+				deadline := time.Now().Add(10 * time.Second)
+				for runtime.LineCount.Value()-e.lineBase < int64(e.sent+e.fanned) && time.Now().Before(deadline) {
+					time.Sleep(100 * time.Microsecond)
+				}
+				rt.VerifFanoutBarrier()
+				time.Sleep(2 * time.Millisecond)
+				rt.VerifFanoutBarrier()
+			}
 			// when the line is to be held, wait until the VM has actually entered it
 			e.mu.Lock()
 			ent := e.entered[kv[1]]
@@ -188,11 +226,26 @@ func c20Run(r *runCtx, id string, f []string) {
 			e.bg = append(e.bg, ch)
 			go func() { _ = rt.LoadAllPrograms(); close(ch) }()
 			loaded = fileThere
-			select {
-			case <-ch:
-				obs = append(obs, "reload=returned")
-			case <-time.After(150 * time.Millisecond):
-				obs = append(obs, "reload=blocked")
+			// observed when it has either returned or reached the point where it waits for the old
+			// VM (no fixed delay: under load a compile alone can take longer than any such delay)
+			held := e.anyHeldEntered()
+			deadline := time.Now().Add(20 * time.Second)
+			for {
+				returned := false
+				select {
+				case <-ch:
+					returned = true
+				default:
+				}
+				if returned {
+					obs = append(obs, "reload=returned")
+					break
+				}
+				if (held && rt.VerifSwapPending()) || time.Now().After(deadline) {
+					obs = append(obs, "reload=blocked")
+					break
+				}
+				time.Sleep(200 * time.Microsecond)
 			}
 		case "wait":
 			k, _ := strconv.Atoi(kv[1])
@@ -204,7 +257,7 @@ func c20Run(r *runCtx, id string, f []string) {
 				time.Sleep(time.Millisecond)
 			}
 		case "sync":
-			deadline := time.Now().Add(3 * time.Second)
+			deadline := time.Now().Add(30 * time.Second)
 			for time.Now().Before(deadline) {
 				if n, _ := e.intMetric("n"); int(n) >= e.sent {
 					break
@@ -226,11 +279,11 @@ func c20Run(r *runCtx, id string, f []string) {
 	for _, ch := range e.bg {
 		select {
 		case <-ch:
-		case <-time.After(3 * time.Second):
+		case <-time.After(30 * time.Second):
 			obs = append(obs, "reload-never-returned")
 		}
 	}
-	deadline := time.Now().Add(3 * time.Second)
+	deadline := time.Now().Add(30 * time.Second)
 	for time.Now().Before(deadline) {
 		if n, _ := e.intMetric("n"); int(n) >= e.sent {
 			break
